@@ -18,6 +18,9 @@ import ASV.Proofs.OrfExtract
 import ASV.Proofs.OrfGaps
 import ASV.Proofs.OrfChunk
 import ASV.Proofs.OrfCross
+import ASV.Proofs.OrfGapsComplete
+import ASV.Proofs.OrfComplement
+import ASV.Proofs.OrfTrim
 namespace ASV.C15
 open ASV ASV.Orf
 
@@ -183,6 +186,43 @@ theorem intergenic_check_meaning (genes : List Gene) (pad : Int) (a : Int × Int
     areaAvoids genes pad a = true ↔ ∀ g ∈ genes, ∀ i, a.1 ≤ i → i < a.2 → ¬ g.core pad i :=
   areaAvoids_iff genes pad a
 
+/-- completeness (no ordering assumption needed): every non-empty stretch `[a, b)` of `[start, end)`
+    of at least `minLen` bases that lies entirely on one side of every padded gene (`Beside`: it
+    ends at or before `g.start + pad` or begins at or after `g.end − pad`) is contained in one
+    returned area -/
+theorem intergenic_complete (start «end» minLen pad : Int) (genes : List Gene) (a b : Int)
+    (h1 : start ≤ a) (h2 : a < b) (h3 : b ≤ «end») (hlen : minLen ≤ b - a)
+    (hb : ∀ g ∈ genes, Beside g pad a b) :
+    ∃ area ∈ findIntergenic start «end» genes minLen pad, area.1 ≤ a ∧ b ≤ area.2 :=
+  findIntergenic_complete start «end» minLen pad genes a b h1 h2 h3 hlen hb
+
+/-- for genes longer than twice the padding "beside" is just "clear of the core": every stretch
+    clear of all cores is contained in one returned area -/
+theorem intergenic_complete_clear (start «end» minLen pad : Int) (genes : List Gene) (a b : Int)
+    (h1 : start ≤ a) (h2 : a < b) (h3 : b ≤ «end») (hlen : minLen ≤ b - a)
+    (hlong : ∀ g ∈ genes, g.start + pad < g.end - pad)
+    (hclear : ∀ g ∈ genes, ∀ i, a ≤ i → i < b → ¬ g.core pad i) :
+    ∃ area ∈ findIntergenic start «end» genes minLen pad, area.1 ≤ a ∧ b ≤ area.2 :=
+  findIntergenic_complete start «end» minLen pad genes a b h1 h2 h3 hlen
+    (fun g hg => beside_of_clear g pad a b h2 (hlong g hg) (hclear g hg))
+
+/-- every maximal gap (`IsGap`) beside all genes and long enough is returned as it is -/
+theorem intergenic_gap_returned (start «end» minLen pad : Int) (genes : List Gene) (hpad : 0 ≤ pad)
+    (hsorted : sortedByStart genes) (a b : Int) (hgap : IsGap start «end» genes pad a b)
+    (hb : ∀ g ∈ genes, Beside g pad a b) (hlen : minLen ≤ b - a) :
+    (a, b) ∈ findIntergenic start «end» genes minLen pad :=
+  findIntergenic_gap_mem start «end» minLen pad genes hpad hsorted a b hgap hb hlen
+
+/-- "the gap search returns exactly the gaps": genes ordered by start and longer than twice the
+    padding, `minLen > 0` — the returned areas are precisely the maximal gaps of `[start, end)`
+    between padded genes that are at least `minLen` long -/
+theorem intergenic_returns_exactly_gaps (start «end» minLen pad : Int) (genes : List Gene)
+    (hpad : 0 ≤ pad) (hmin : 0 < minLen) (hsorted : sortedByStart genes)
+    (hlong : ∀ g ∈ genes, g.start + pad < g.end - pad) (a b : Int) :
+    (a, b) ∈ findIntergenic start «end» genes minLen pad ↔
+      IsGap start «end» genes pad a b ∧ minLen ≤ b - a :=
+  findIntergenic_iff_gap start «end» minLen pad genes hpad hmin hsorted hlong a b
+
 /-! ### 5. `find_all_orfs`: ORFs lie in the gaps and extract to ORFs -/
 
 /-- every location found by the scanning loop of `find_all_orfs` lies, base for base, inside one
@@ -241,21 +281,173 @@ theorem all_orfs_extract_fwd (comp : Char → Char) (rec : Seq) (st en minLen : 
   exact this
 
 /-- same for the reverse scan of the chunk's reverse complement (`complement` = Biopython's
-    table), for upper-case records -/
+    table, which commutes with upper-casing: `complement_upper`), any case -/
 theorem all_orfs_extract_rev (rec : Seq) (st en minLen : Int)
-    (hL : 0 < rec.length) (hok : AreaOk rec.length (st, en)) (hen : en ≤ rec.length)
-    (hup : upper (revComp (chunkOf rec st en)) = revComp (chunkOf rec st en)) (l : Loc)
+    (hL : 0 < rec.length) (hok : AreaOk rec.length (st, en)) (hen : en ≤ rec.length) (l : Loc)
     (hl : l ∈ scanOrfs (revComp (chunkOf rec st en)) false st minLen (some (rec.length : Int))) :
-    ∃ s e, IsOrf (revComp (chunkOf rec st en)) s e ∧
-      extract complement rec l = orfSeq (revComp (chunkOf rec st en)) s e := by
+    ∃ s e, IsOrf (upper (revComp (chunkOf rec st en))) s e ∧
+      extract complement (upper rec) l = orfSeq (upper (revComp (chunkOf rec st en))) s e := by
   obtain ⟨s, e, horf, _, rfl⟩ := (mem_scanOrfs _ _ _ _ _ _).1 hl
-  rw [hup] at horf ⊢
   refine ⟨s, e, horf, ?_⟩
-  have hw := windowRev_of_fwd _ _ _ _ (chunkOf_window rec st en hok hen)
+  have hw := windowRev_upper complement complement_upper _ _ _ _
+    (windowRev_of_fwd _ _ _ _ (chunkOf_window rec st en hok hen))
   have hlenC := chunkOf_length rec st en hok hen
-  have := hok.2.2.1
-  exact extract_rev_ring complement rec (revComp (chunkOf rec st en)) st s e hL hw horf.lt horf.inside
-    (by have := horf.inside; rw [revComp_length] at this; simp only [orfLen]; simp only at *; omega)
+  have h3 := hok.2.2.1
+  simp only at h3
+  have := extract_rev_ring complement (upper rec) (upper (revComp (chunkOf rec st en))) st s e
+    (by rw [upper_length]; exact hL) (by rw [upper_length]; exact hw) horf.lt horf.inside
+    (by rw [upper_length]; have := horf.inside; rw [upper_length, revComp_length] at this
+        simp only [orfLen]; omega)
+  rw [upper_length rec] at this
+  exact this
+
+/-- the chunk cut for an area is the window `record[start .. end)` (around the origin when
+    `start < 0`), and its reverse complement is the reverse window -/
+theorem chunk_is_window (rec : Seq) (st en : Int) (hok : AreaOk rec.length (st, en)) (hen : en ≤ rec.length) :
+    WindowFwd rec (chunkOf rec st en) st rec.length ∧
+    WindowRev complement rec (revComp (chunkOf rec st en)) st rec.length :=
+  ⟨chunkOf_window rec st en hok hen, windowRev_of_fwd _ _ _ _ (chunkOf_window rec st en hok hen)⟩
+
+/-- the window scanned on strand `fwd` for a chunk -/
+def strandWindow (fwd : Bool) (chunk : Seq) : Seq := if fwd then chunk else revComp chunk
+
+/-- `find_all_orfs` returns exactly (D23: strictly longer than `minLen`) the ORFs of the gaps: a
+    location is returned iff it is the location of an ORF (`IsOrf`) of the chunk of one of the
+    intergenic areas, read on either strand -/
+theorem all_orfs_exact_strict (rec : Seq) (cross : Bool) (parts : List (Int × Int × List Gene))
+    (minLen pad : Int) (locs : List Loc) (h : findAllOrfs rec cross parts minLen pad = some locs) (l : Loc) :
+    l ∈ locs ↔ ∃ areas, orfAreas rec.length cross parts minLen pad = some areas ∧
+      ∃ a ∈ areas, ∃ fwd s e,
+        IsOrf (upper (strandWindow fwd (chunkOf rec a.1 a.2))) s e ∧ minLen < orfLen s e ∧
+        l = orfLoc fwd (chunkOf rec a.1 a.2).length a.1 (some (rec.length : Int)) s e := by
+  unfold findAllOrfs at h
+  cases hareas : orfAreas rec.length cross parts minLen pad with
+  | none => rw [hareas] at h; simp only [Option.bind_none, reduceCtorEq] at h
+  | some areas =>
+    rw [hareas] at h
+    simp only [Option.bind_some] at h
+    rw [scanAreas_mem rec minLen areas locs h l]
+    constructor
+    · rintro ⟨a, ha, hl | hl⟩
+      · obtain ⟨s, e, h1, h2, h3⟩ := (mem_scanOrfs _ _ _ _ _ _).1 hl
+        exact ⟨areas, rfl, a, ha, true, s, e, h1, h2, by rw [h3, upper_length]⟩
+      · obtain ⟨s, e, h1, h2, h3⟩ := (mem_scanOrfs _ _ _ _ _ _).1 hl
+        exact ⟨areas, rfl, a, ha, false, s, e, h1, h2, by rw [h3, upper_length, revComp_length]⟩
+    · rintro ⟨areas', he, a, ha, fwd, s, e, h1, h2, h3⟩
+      have : areas' = areas := by simpa using he.symm
+      subst this
+      refine ⟨a, ha, ?_⟩
+      cases fwd
+      · exact Or.inr ((mem_scanOrfs _ _ _ _ _ _).2 ⟨s, e, h1, h2, by rw [h3, upper_length, revComp_length]⟩)
+      · exact Or.inl ((mem_scanOrfs _ _ _ _ _ _).2 ⟨s, e, h1, h2, by rw [h3, upper_length]⟩)
+
+/-- completeness, spelled out: when the gap search yields `areas` inside the record, the call
+    succeeds and every ORF longer than `minLen` of every gap, on either strand, is among the
+    locations returned (at the coordinates `orf_coords_extract_*` show to be the right ones) -/
+theorem all_orfs_complete_in_gaps (rec : Seq) (cross : Bool) (parts : List (Int × Int × List Gene))
+    (minLen pad : Int) (areas : List (Int × Int))
+    (hareas : orfAreas rec.length cross parts minLen pad = some areas)
+    (hin : ∀ a ∈ areas, a.2 ≤ (rec.length : Int)) :
+    ∃ locs, findAllOrfs rec cross parts minLen pad = some locs ∧
+      ∀ a ∈ areas, ∀ (fwd : Bool) (s e : Nat),
+        IsOrf (upper (strandWindow fwd (chunkOf rec a.1 a.2))) s e → minLen < orfLen s e →
+        orfLoc fwd (chunkOf rec a.1 a.2).length a.1 (some (rec.length : Int)) s e ∈ locs := by
+  obtain ⟨locs, hlocs⟩ := scanAreas_isSome rec minLen areas hin
+  have hfind : findAllOrfs rec cross parts minLen pad = some locs := by
+    unfold findAllOrfs; rw [hareas]; exact hlocs
+  refine ⟨locs, hfind, ?_⟩
+  intro a ha fwd s e h1 h2
+  exact (all_orfs_exact_strict rec cross parts minLen pad locs hfind _).2
+    ⟨areas, hareas, a, ha, fwd, s, e, h1, h2, rfl⟩
+
+/-- for a search of `[start, end)` inside the record the areas are inside it, so the previous
+    theorem applies without further assumptions -/
+theorem all_orfs_complete_linear (rec : Seq) (start «end» minLen pad : Int) (genes : List Gene)
+    (hend : «end» ≤ rec.length) :
+    ∃ locs, findAllOrfs rec false [(start, «end», genes)] minLen pad = some locs ∧
+      ∀ a ∈ findIntergenic start «end» genes minLen pad, ∀ (fwd : Bool) (s e : Nat),
+        IsOrf (upper (strandWindow fwd (chunkOf rec a.1 a.2))) s e → minLen < orfLen s e →
+        orfLoc fwd (chunkOf rec a.1 a.2).length a.1 (some (rec.length : Int)) s e ∈ locs := by
+  apply all_orfs_complete_in_gaps rec false [(start, «end», genes)] minLen pad _ rfl
+  intro a ha
+  unfold findIntergenic at ha
+  have hm := (List.mem_filter.1 ha).1
+  -- every area of the loop ends at or before `end`
+  have : ∀ (gs : List Gene) (last : Int), ∀ x ∈ intergenicLoop start «end» pad gs last, x.2 ≤ «end» := by
+    intro gs
+    induction gs with
+    | nil =>
+      intro last x hx
+      unfold intergenicLoop at hx
+      split at hx
+      · rw [List.mem_singleton] at hx; subst hx; exact Int.le_refl _
+      · exact absurd hx List.not_mem_nil
+    | cons g gs ih =>
+      intro last x hx
+      unfold intergenicLoop at hx
+      split at hx
+      · rcases List.mem_cons.1 hx with rfl | hx
+        · simp only; omega
+        · exact ih _ x hx
+      · split at hx
+        · exact ih _ x hx
+        · exact ih _ x hx
+  have := this genes start a hm
+  omega
+
+/-! ### 6. `get_trimmed_orf` (tree with fixes/D57: new location by C09's exon walk) -/
+
+/-- the start chosen is a start codon of the (not upper-cased) ORF, lies in the search range
+    `[max(0, n − 3⌊max/3⌋), min(n − min, include))`, is in that range's frame, and is the last such;
+    hence: the trimmed length `n − k` is `> min_length` and `≤ max_length`, `k < include`, and `k`
+    is in the ORF's own frame when the ORF is a whole number of codons -/
+theorem trimmed_orf_start_latest (seq : Seq) (incl : Option Int) (minLen : Int) (maxLen : Option Int) (k : Nat)
+    (h : trimSearch seq incl minLen maxLen = .start k) :
+    isStartDoc (codonAt seq k) = true ∧ k + 3 ≤ seq.length ∧
+    minLen < (seq.length : Int) - k ∧ (seq.length : Int) - k ≤ maxLen.getD seq.length ∧
+    (k : Int) < incl.getD seq.length ∧
+    (seq.length % 3 = 0 → k % 3 = 0) ∧
+    ∀ k' : Nat, k < k' → (k' : Int) < trimHi seq.length minLen (incl.getD seq.length) →
+      ((k' : Int) - trimLo seq.length (maxLen.getD seq.length)) % 3 = 0 →
+      isStartDoc (codonAt seq k') = false := by
+  obtain ⟨h1, h2, h3, h4, h5⟩ := trimSearch_spec seq incl minLen maxLen k h
+  have hin := isStart_inside seq k h1
+  unfold trimLo at h2 h4
+  unfold trimHi at h3
+  refine ⟨by rw [← isStart_eq]; exact h1, hin, by omega, by omega, by omega, by omega, ?_⟩
+  intro k' a b c
+  rw [← isStart_eq]
+  exact h5 k' a b c
+
+/-- for every gene location (any number of parts in any order, origin-crossing, either strand —
+    `geneWF`): once a start is found, `get_trimmed_orf` succeeds and the new location extracts to
+    the suffix of the ORF beginning at that start codon; each of its parts is a non-empty piece of
+    one part of the ORF on the same strand, so the trimmed ORF stays inside the ORF's location
+    (and with it inside the gap and the allowed overlap) -/
+theorem trimmed_orf_suffix (recf : Int → Char) (compl : Char → Char) (l : Loc)
+    (hwf : ProtDna.geneWF l = true) (incl : Option Int) (minLen : Int) (maxLen : Option Int) (k : Nat)
+    (h : trimSearch (ProtDna.extract recf compl l) incl minLen maxLen = .start k) :
+    ∃ r, trimmedOrf (ProtDna.extract recf compl l) l incl minLen maxLen = .found r ∧
+      ProtDna.extract recf compl r = (ProtDna.extract recf compl l).drop k ∧
+      (∀ q ∈ r.parts, ∃ p ∈ l.parts, p.lo ≤ q.lo ∧ q.lo < q.hi ∧ q.hi ≤ p.hi ∧ q.strand = p.strand) :=
+  trimmedOrf_suffix recf compl l hwf incl minLen maxLen k h
+
+/-- …and nothing else is ever returned: a found location always comes from a found start -/
+theorem trimmed_orf_found_iff (seq : Seq) (l : Loc) (incl : Option Int) (minLen : Int) (maxLen : Option Int)
+    (r : Loc) (h : trimmedOrf seq l incl minLen maxLen = .found r) :
+    ∃ k, trimSearch seq incl minLen maxLen = .start k ∧
+      ProtDna.subLocationFromOffsets l k seq.length = .ok r := by
+  unfold trimmedOrf at h
+  split at h
+  · simp only [reduceCtorEq] at h
+  · simp only [reduceCtorEq] at h
+  · rename_i k hk
+    split at h
+    · rename_i r' hr
+      have : r' = r := by simpa using h
+      subst this
+      exact ⟨k, hk, hr⟩
+    · simp only [reduceCtorEq] at h
 
 /-! ### non-vacuity: concrete inputs meeting the hypotheses on which the interesting branches fire -/
 
@@ -280,6 +472,12 @@ example : extract complement "TAAATGAAACCC".toList (.compound [⟨3, 12, .fwd⟩
 example : findIntergenic 0 300 [⟨0, 110⟩, ⟨50, 105⟩] 0 10 = [(0, 10), (100, 300)] := by decide
 /-- origin-crossing area of a ring of 60 with parts [40,60) and [0,20), no genes: one joined area -/
 example : crossOriginIntergenic [(40, 60, []), (0, 20, [])] 60 6 0 = some [(-20, 20)] := by decide
+/-- why completeness speaks of `Beside`: a gene shorter than twice the padding has an empty core, the
+    loop still cuts its areas there, and the (entirely clear) stretch [0, 200) is in no single area -/
+example : findIntergenic 0 200 [⟨95, 114⟩] 0 10 = [(0, 105), (104, 200)] := by decide
+/-- trimming an origin-crossing ORF (D57): ring of 30, ORF = [20,30) + [0,8), latest start at 6 -/
+example : trimmedOrf "ATGAAAGTGCCCGGGTAA".toList (.compound [⟨20, 30, .fwd⟩, ⟨0, 8, .fwd⟩]) none 0 none
+    = .found (.compound [⟨26, 30, .fwd⟩, ⟨0, 8, .fwd⟩]) := by decide
 example : sortedByStart [⟨0, 110⟩, ⟨50, 105⟩] := (sortedByStartB_iff _).1 (by decide)
 
 end ASV.C15
